@@ -47,6 +47,36 @@ let do_cr () =
                        ((((((x, y), w), h), o), fx), ob)) in
   print_endline (show_rows (compute_rows_circuit rows extra cells))
 
+let zi z = string_of_int (int_of_z z)
+let do_po () =
+  let o = orient_of_int (nexti ()) in let w = z () in let h = z () in let px = z () in let py = z () in
+  let t = match def_transform o (((w, h), px), py) with
+    | Some (((pw, ph), x), y) -> Printf.sprintf "%s %s %s %s" (zi pw) (zi ph) (zi x) (zi y) | None -> "none" in
+  Printf.printf "%s %s %s %s | %s\n" (zi (pin_x_offset o w h px py)) (zi (pin_y_offset o w h px py))
+    (zi (placed_width o w h)) (zi (placed_height o w h)) t
+
+let read_circuit () =
+  let nc = nexti () in
+  let cells = rep nc (fun () -> let x = z () in let y = z () in let w = z () in let h = z () in let o = orient_of_int (nexti ()) in
+                       {hx=x; hy=y; hw=w; hh=h; ho=o}) in
+  let nn = nexti () in
+  let nets = rep nn (fun () -> let np = nexti () in rep np (fun () -> let c = nat_of_int (nexti ()) in let xo = z () in let yo = z () in {pc=c; pxo=xo; pyo=yo})) in
+  (cells, nets)
+
+let do_hp () = let (cells, nets) = read_circuit () in print_endline (zi (hpwl cells nets))
+
+let do_in () =
+  let dirx = nexti () = 0 in
+  let (cells, nets) = read_circuit () in
+  let ns = nexti () in let subset = rep ns (fun () -> nat_of_int (nexti ())) in
+  let nu = nexti () in let ups = rep nu (fun () -> let c = nat_of_int (nexti ()) in let p = z () in (c, p)) in
+  let s = circuit_topology dirx cells nets subset in
+  let tr = incr_trace s ups in
+  let netsS = String.concat ";" (List.map (fun net -> String.concat "," (List.map (fun (c, o) -> Printf.sprintf "%d:%s" (int_of_nat c) (zi o)) net)) s.inets) in
+  let ncl = List.length s.ipos in
+  let csr = String.concat ";" (List.init ncl (fun c -> String.concat "," (List.map (fun n -> string_of_int (int_of_nat n)) (cell_net_ids s.inets (nat_of_int c))))) in
+  Printf.printf "%s | %s | %s\n" (zs tr) netsS csr
+
 let () =
   try while true do
     let line = input_line stdin in
@@ -59,6 +89,9 @@ let () =
          (match tag with
           | "RL" -> do_rl ()
           | "RLC" -> do_rlc ()
+          | "PO" -> do_po ()
+          | "HP" -> do_hp ()
+          | "IN" -> do_in ()
           | "FS" -> do_fs ()
           | "CR" -> do_cr ()
           | _ -> print_endline "?TAG")
